@@ -81,6 +81,24 @@ type Q struct {
 	Hi        float64 `json:"hi,omitempty"`
 	// mphrase: per phrase position the alternative words (indices into words)
 	Slots [][]int `json:"slots,omitempty"`
+	// the minimum of a disjunction (NegHalf) / of the should clause (ShouldNegHalf) is -0.5
+	// instead of Min / MinShould (which may themselves be negative: -1, -2, -1000000)
+	NegHalf       bool `json:"neg_half,omitempty"`
+	ShouldNegHalf bool `json:"should_neg_half,omitempty"`
+}
+
+func (q *Q) minF() float64 {
+	if q.NegHalf {
+		return -0.5
+	}
+	return float64(q.Min)
+}
+
+func (q *Q) minShouldF() float64 {
+	if q.ShouldNegHalf {
+		return -0.5
+	}
+	return float64(q.MinShould)
 }
 
 // one call of a program.  Advance targets are resolved against what the searcher returned so
@@ -466,7 +484,7 @@ func (q *Q) build(name func(int) string) query.Query {
 			qs[i] = k.build(name)
 		}
 		d := bleve.NewDisjunctionQuery(qs...)
-		d.SetMin(float64(q.Min))
+		d.SetMin(q.minF())
 		return d
 	case "bool":
 		bq := bleve.NewBooleanQuery()
@@ -480,7 +498,7 @@ func (q *Q) build(name func(int) string) query.Query {
 			bq.AddMustNot(k.build(name))
 		}
 		if len(q.Should) > 0 {
-			bq.SetMinShould(float64(q.MinShould))
+			bq.SetMinShould(q.minShouldF())
 		}
 		if q.Filter != nil {
 			bq.AddFilter(q.Filter.build(name))
@@ -651,13 +669,13 @@ func (d *desc) describe(q *Q) (cf.T, error) {
 		if err != nil {
 			return "", err
 		}
-		return cf.App("DisjS", cf.Int(q.Min), ks), nil
+		return cf.App("DisjS", cf.Int(int(q.minF())), ks), nil
 	case q.K == "disj" && tn == "*searcher.DisjunctionHeapSearcher":
 		ks, err := kids(q.Kids)
 		if err != nil {
 			return "", err
 		}
-		return cf.App("DisjH", cf.Int(q.Min), ks), nil
+		return cf.App("DisjH", cf.Int(int(q.minF())), ks), nil
 	case q.K == "bool" && tn == "*searcher.FilteringSearcher" && q.Filter != nil:
 		inner := *q
 		inner.Filter = nil
@@ -678,11 +696,11 @@ func (d *desc) describe(q *Q) (cf.T, error) {
 		d.leaves = append(d.leaves, fd.leaves...)
 		return cf.App("Filter", child, ft), nil
 	case q.K == "bool" && tn == "*searcher.BooleanSearcher" && q.Filter == nil:
-		clause := func(k string, qs []*Q, min int) (cf.T, bool, int, error) {
+		clause := func(k string, qs []*Q, min int, negHalf bool) (cf.T, bool, int, error) {
 			if len(qs) == 0 {
 				return "", false, 0, nil
 			}
-			sub := &Q{K: k, Kids: qs, Min: min}
+			sub := &Q{K: k, Kids: qs, Min: min, NegHalf: negHalf}
 			ss, _, err := d.c.searcher(sub.build(d.c.b.name))
 			if err != nil {
 				return "", false, 0, err
@@ -696,15 +714,15 @@ func (d *desc) describe(q *Q) (cf.T, error) {
 			t, err := d.describe(sub)
 			return t, true, smin, err
 		}
-		mt, mok, _, err := clause("conj", q.Must, 0)
+		mt, mok, _, err := clause("conj", q.Must, 0, false)
 		if err != nil {
 			return "", err
 		}
-		st, sok, smin, err := clause("disj", q.Should, q.MinShould)
+		st, sok, smin, err := clause("disj", q.Should, q.MinShould, q.ShouldNegHalf)
 		if err != nil {
 			return "", err
 		}
-		nt, nok, _, err := clause("disj", q.MustNot, 0)
+		nt, nok, _, err := clause("disj", q.MustNot, 0, false)
 		if err != nil {
 			return "", err
 		}
@@ -715,7 +733,7 @@ func (d *desc) describe(q *Q) (cf.T, error) {
 			}
 			mok = true
 		}
-		if mok && sok && smin != 0 {
+		if mok && sok && smin > 0 {
 			d.classes["boolean-should-advance"] = true
 		}
 		// a should clause the query package replaced by one opaque searcher that still reports
@@ -723,7 +741,8 @@ func (d *desc) describe(q *Q) (cf.T, error) {
 		// the OR-ed bitmaps and keeps its minimum).  A Leaf has Min() = 0 in the model, so it is
 		// described as what it stands for: a disjunction with min 1 over that one posting list.
 		// Any other opaque should clause with a non-zero minimum makes the whole node a leaf.
-		if sok && smin != 0 && strings.HasPrefix(string(st), "(Leaf") {
+		// (Min() <= 0, e.g. -1 from a negative minimum, means "optional" like the Leaf's 0.)
+		if sok && smin > 0 && strings.HasPrefix(string(st), "(Leaf") {
 			if smin != 1 {
 				return d.leaf(bq)
 			}
@@ -734,7 +753,7 @@ func (d *desc) describe(q *Q) (cf.T, error) {
 	case q.K == "bool" && q.Filter == nil && len(q.Must) > 0 && len(q.Should) == 0 && len(q.MustNot) == 0:
 		return d.describe(&Q{K: "conj", Kids: q.Must})
 	case q.K == "bool" && q.Filter == nil && len(q.Must) == 0 && len(q.Should) > 0 && len(q.MustNot) == 0:
-		return d.describe(&Q{K: "disj", Kids: q.Should, Min: q.MinShould})
+		return d.describe(&Q{K: "disj", Kids: q.Should, Min: q.MinShould, NegHalf: q.ShouldNegHalf})
 	}
 	return d.leaf(bq)
 }
@@ -1391,6 +1410,24 @@ func genLeafish(r *vrand.R) *Q {
 	return termQ(r)
 }
 
+// genMin: a minimum for a disjunction / should clause: 0..hi, or (one time in four) a negative one:
+// -1, -2, -1000000, -0.5 (Validate() accepts them; they mean "optional" for a should clause, and a
+// disjunction still needs one matching clause)
+func genMin(r *vrand.R, hi int) (int, bool) {
+	if r.Chance(1, 4) {
+		switch r.Intn(4) {
+		case 0:
+			return 0, true
+		case 1:
+			return -2, false
+		case 2:
+			return -1000000, false
+		}
+		return -1, false
+	}
+	return r.Range(0, hi), false
+}
+
 func genTree(r *vrand.R, depth int) *Q {
 	if depth <= 0 {
 		return genLeafish(r)
@@ -1413,7 +1450,8 @@ func genTree(r *vrand.R, depth int) *Q {
 	case 0, 1:
 		return &Q{K: "conj", Kids: subs(1, 4)}
 	case 2, 3:
-		return &Q{K: "disj", Kids: subs(1, 5), Min: r.Range(0, 2)}
+		m, nh := genMin(r, 2)
+		return &Q{K: "disj", Kids: subs(1, 5), Min: m, NegHalf: nh}
 	case 4:
 		// around DisjunctionHeapTakeover = 10
 		n := r.Range(9, 13)
@@ -1425,7 +1463,8 @@ func genTree(r *vrand.R, depth int) *Q {
 				qs[i] = termQ(r)
 			}
 		}
-		return &Q{K: "disj", Kids: qs, Min: r.Range(0, 2)}
+		m, nh := genMin(r, 2)
+		return &Q{K: "disj", Kids: qs, Min: m, NegHalf: nh}
 	default:
 		q := &Q{K: "bool"}
 		if r.Chance(2, 3) {
@@ -1433,7 +1472,7 @@ func genTree(r *vrand.R, depth int) *Q {
 		}
 		if r.Chance(2, 3) {
 			q.Should = subs(1, 3)
-			q.MinShould = r.Range(0, 2)
+			q.MinShould, q.ShouldNegHalf = genMin(r, 2)
 			if q.MinShould > len(q.Should) {
 				q.MinShould = len(q.Should)
 			}
@@ -1567,7 +1606,7 @@ func phraseTree(r *vrand.R) *Q {
 	case 2:
 		return &Q{K: "bool", Must: []*Q{ph, termQ(r)}}
 	case 3:
-		return &Q{K: "bool", Must: []*Q{termQ(r)}, Should: []*Q{ph, termQ(r)}, MinShould: r.Range(0, 1), MustNot: []*Q{termQ(r)}}
+		return &Q{K: "bool", Must: []*Q{termQ(r)}, Should: []*Q{ph, termQ(r)}, MinShould: r.Range(-1, 1), MustNot: []*Q{termQ(r)}}
 	case 4:
 		return &Q{K: "conj", Kids: []*Q{ph, phraseQ(r)}}
 	}
@@ -1639,7 +1678,7 @@ func gen(f vh.Flags, r *vrand.R, emit func(In)) {
 			}
 			q := &Q{K: "conj", Kids: qs}
 			if k%2 == 1 {
-				q = &Q{K: "disj", Kids: qs, Min: r.Range(0, 1)}
+				q = &Q{K: "disj", Kids: qs, Min: r.Range(-1, 1)}
 			}
 			emit(In{Kind: rk("una"), Corpus: corp, Q: q, Score: "none", Prog: genProg(r, k >= 2 && !udc)})
 		}
@@ -1761,7 +1800,7 @@ func main() {
 		ExplainFn: "MachCorr.explain",
 		Rule: "corpora of 8-40 documents (13-word keyword field, text of 0-8 words out of 6, numeric/geo fields) indexed in 2-6 batches with updates and deletes on scorch (in memory, on disk) and upsidedown over gtreap, boltdb and moss; " +
 			"external ids d%03d, or prefix+unpadded number (a1 a10 a11 a2), or 1-4 byte strings that are prefixes of each other with 0x00/0x01/0x7f/0x80/0xfe bytes (on upsidedown these are the internal ids: a CKeyed case names ids by their index in a key table that Coq re-checks to be strictly ascending bytewise; Advance targets also between ids: id+0x00, a proper prefix, a string with 0xff bytes just below, the empty string, above everything); " +
-			"query trees to depth 3 of term / doc-id / match-all / match-none leaves and, as opaque leaves, phrase / multi-phrase / match / prefix / fuzzy / regexp / wildcard / term-range / numeric-range searchers, under conjunction, disjunction (1-13 children, min 0-2), boolean (must/should/must-not/min_should/filter), score default and none; phrase searchers as clauses of conjunctions / booleans / disjunctions next to dense term clauses; " +
+			"query trees to depth 3 of term / doc-id / match-all / match-none leaves and, as opaque leaves, phrase / multi-phrase / match / prefix / fuzzy / regexp / wildcard / term-range / numeric-range searchers, under conjunction, disjunction (1-13 children, min 0-2 and -0.5, -1, -2, -1000000), boolean (must/should/must-not/filter, min_should 0-2 and the same negative values), score default and none; phrase searchers as clauses of conjunctions / booleans / disjunctions next to dense term clauses; " +
 			"kinds: tree (machine + spec), tfr / did (scorch readers with segment offsets; tfr also backward targets), una (unadorned AND/OR), contract (bare phrase / multi-phrase searchers, upsidedown term-field and doc-id readers, prefix, fuzzy, regexp, wildcard, term range, match, numeric range, geo, compounds over them); " +
 			"programs of 1-12 Next/Advance calls, targets relative to the last returned id: +k, at / just after / just before an existing posting, at segment offsets, beyond the last id, as first call and after exhaustion, and exactly at the next / second-next / last / first entry of a list of interest (Next-only enumerations of real searchers for the query, each of its subtrees, each phrase term and the all-terms candidate conjunction of a phrase), in particular k x Next then Advance(next entry); " +
 			"non-trivial: the program contains an Advance and the searcher returned at least one id",
